@@ -51,7 +51,11 @@ def _greater_than_snapshot(l):
 @obligation("MEMSTORE.index_guards", ["C19"], floor=5, kind="bounds-guard dominance for every indexing site",
             why="an index into the entry vector that is not range-guarded answers a query with a panic or with wrong data")
 def index_guards(cx):
-    HAS_ENTRY[0] = cx.sfx("MemStorageCore::has_entry_at")
+    from ..engine import AnchorMissing
+    try:
+        HAS_ENTRY[0] = cx.sfx("MemStorageCore::has_entry_at")
+    except AnchorMissing:
+        HAS_ENTRY[0] = "\0no-such-predicate"   # the bounds predicate was dissolved into its users: their own guards decide
     FIRST_LAST[0], FIRST_LAST[1] = cx.sfx("MemStorageCore::first_index"), cx.sfx("MemStorageCore::last_index")
     n = 0
     for c in cx.prog.all_calls:
@@ -111,7 +115,12 @@ def index_guards(cx):
             # base read from entries[0] itself: covered by the entries[0] site above
             pass
     cx.check(n >= 5, "floor", "indexing sites into MemStorageCore.entries were found (%d)" % n)
-    he = cx.fn("MemStorageCore::has_entry_at")
+    try:
+        he = cx.fn("MemStorageCore::has_entry_at")
+    except AnchorMissing:
+        # a private predicate, not an anchor: every indexing site above was decided on its own dominating guards
+        cx.ok("has_entry_at", "no separate bounds predicate; every indexing site carries its own range guards")
+        return
     rets = cx.pg(he).returns()
     ok = bool(rets)
     for lits, v, _ in rets:
@@ -169,6 +178,39 @@ def _limited_prefix(cx, f):
     return counted >= 1
 
 
+def _first_entry(l, want):
+    """literal: entries.first() is Some / None"""
+    return l[0] == "in" and l[2] == frozenset([want]) and l[1][0] == "call" and l[1][1].endswith("::first") and contains(fld("MemStorageCore.entries"), l[1])
+
+
+def _lt(l, a_pred, b_pred, val):
+    return l[0] == "is" and l[2] is val and l[1][0] == "bin" and l[1][1] == "Lt" and a_pred(l[1][2]) and b_pred(l[1][3])
+
+
+def _below_first(lits):
+    """idx < first_index(), also when written out over the two cases of first_index(): the first entry's index when
+    there are entries, the snapshot index (+1, minus the snapshot point itself handled before) when there are none"""
+    par = lambda e: e[0] == "param"
+    if any(_lt(l, par, _is_first, True) for l in lits):
+        return True
+    if any(_first_entry(l, "Some") for l in lits) and any(_lt(l, par, lambda e: e[0] == "field" and e[2] == "Entry.index" and any(x[0] == "call" and x[1].endswith("::first") for x in walk(e)), True) for l in lits):
+        return True
+    if any(_first_entry(l, "None") for l in lits) and any(_lt(l, par, lambda e: contains(fld("SnapshotMetadata.index"), e), True) for l in lits):
+        return True
+    return False
+
+
+def _above_last(lits):
+    par = lambda e: e[0] == "param"
+    if any(_lt(l, _is_last, par, True) for l in lits):
+        return True
+    # no entries: everything above the snapshot point (which was answered first) is unavailable
+    if any(_first_entry(l, "None") for l in lits) and any(_lt(l, par, lambda e: contains(fld("SnapshotMetadata.index"), e), False) for l in lits) and \
+            any(l[0] == "is" and l[2] is False and l[1][0] == "bin" and l[1][1] == "Eq" and contains(fld("SnapshotMetadata.index"), l[1]) for l in lits):
+        return True
+    return False
+
+
 @obligation("MEMSTORE.error_mapping", ["C19"], floor=4, kind="return shape",
             why="compacted or not-yet-available indexes must yield the documented errors rather than wrong data")
 def error_mapping(cx):
@@ -183,10 +225,10 @@ def error_mapping(cx):
             ok = ok and bool(eq_snap) and eq_snap[0][2] is True and len(lits) == 1
             seen.add("snapshot")
         elif _err(v, "Compacted"):
-            ok = ok and any(l[0] == "is" and l[2] is True and l[1][0] == "bin" and l[1][1] == "Lt" and l[1][2][0] == "param" and _is_first(l[1][3]) for l in lits)
+            ok = ok and _below_first(lits)
             seen.add("compacted")
         elif _err(v, "Unavailable"):
-            ok = ok and any(l[0] == "is" and l[2] is True and l[1][0] == "bin" and l[1][1] == "Lt" and _is_last(l[1][2]) and l[1][3][0] == "param" for l in lits)
+            ok = ok and _above_last(lits)
             seen.add("unavailable")
         elif contains(fld("Entry.term"), v):
             seen.add("entry")
